@@ -86,6 +86,16 @@ theorem fresh_equiv (C : F → Prop) (init : List (Asg F V)) (step : Stmt F V)
   simp only [runTo, run, assigns_no_raise]
   simpa using hn
 
+/-- the form in which the table obligation `T08` feeds the theorem: `readsList` over-approximates the step's reads and every field of it
+is in `C` (configuration, task, constructor constants) or (re)assigned by the initialisation — exactly `Tables.noLeak`. -/
+theorem fresh_equiv_of_sets (C : F → Prop) (init : List (Asg F V)) (step : Stmt F V) (readsList : List F)
+    (hinit : WellScoped C init) (hdecl : ∀ f ∈ step.reads, f ∈ readsList)
+    (hsub : ∀ f ∈ readsList, C f ∨ f ∈ init.map (·.1))
+    (used fresh : Store F V) (h : AgreeOn C used fresh) (k : Nat) :
+    AgreeOn (Obs C init) ((runTo init step k).run used).1 ((runTo init step k).run fresh).1 ∧
+      ((runTo init step k).run used).2 = ((runTo init step k).run fresh).2 :=
+  fresh_equiv C init step hinit (fun f hf => hsub f (hdecl f hf)) used fresh h k
+
 /-- the negation on the pinned tree, kept visible: when the cycle counter is *not* re-initialised per run (it was only set in
 `__init__`), a used and a fresh instance differ on an observable field — the model of the defect repaired by the `fix:` commit
 that resets `_current_cycle/_errors/_error_diffs` in the prologue. -/
